@@ -3,7 +3,9 @@ package props
 import (
 	"fmt"
 	"go/ast"
+	"go/token"
 	"go/types"
+	"golang.org/x/tools/go/packages"
 	"sort"
 	"strings"
 
@@ -187,6 +189,12 @@ func checkC14(c *Ctx) {
 	checkDiffsTo(c, r)
 
 	checkSideMixing(c, "C14.R0.side-mixing", r)
+	checkLoopCarriedLocations(c, r.Pkg)
+	// the names the JSON report gives to codes: a deleted-X must not be called added-X
+	c.Rule("C14.R5.toStringSpecChangeCode", "the JSON name of each change code is its own (total, injective, no row carrying another constant's identifier): a deleted-X is never reported as added-X", 150)
+	c.Rule("C14.R5.toLongStringSpecChangeCode", "the text of each change code is its own (total, injective)", 150)
+	enumTable(c, "C14.R5", r.Pkg, "toStringSpecChangeCode", "SpecChangeCode", true)
+	enumTable(c, "C14.R5", r.Pkg, "toLongStringSpecChangeCode", "SpecChangeCode", true)
 	checkSections(c, "C14.R4.report-sections", pk)
 
 	c.Rule("C14.R1.orientation", "directed code ⇒ directed trigger of matching orientation; no opposite-orientation trigger; direction-less code ⇒ no one-sided selection", 55)
@@ -593,4 +601,61 @@ func argStr(call *ast.CallExpr) string {
 		as = append(as, goan.ExprString(a))
 	}
 	return strings.Join(as, ", ")
+}
+
+// checkLoopCarriedLocations: a DifferenceLocation declared outside a loop is the common root of
+// the locations reported inside it; extending it in place (x = x.AddNode(…)) inside the loop
+// makes every later iteration report under the previous iteration's node, which the opposite
+// direction (reporting additions) does not.
+func checkLoopCarriedLocations(c *Ctx, pk *packages.Package) {
+	rule := "C14.R1.location-roots"
+	c.Rule(rule, "inside a loop, a location declared outside the loop is never extended in place", 20)
+	info := pk.TypesInfo
+	for _, fd := range load.AllFuncs(pk) {
+		fd := fd
+		var loops []ast.Node
+		ast.Inspect(fd.Body, func(n ast.Node) bool {
+			switch n.(type) {
+			case *ast.RangeStmt, *ast.ForStmt:
+				loops = append(loops, n)
+			}
+			return true
+		})
+		for _, lp := range loops {
+			k := 0
+			ast.Inspect(lp, func(n ast.Node) bool {
+				as, ok := n.(*ast.AssignStmt)
+				if !ok || len(as.Lhs) != 1 || len(as.Rhs) != 1 || as.Tok != token.ASSIGN {
+					return true
+				}
+				id, ok := as.Lhs[0].(*ast.Ident)
+				if !ok || goan.NamedName(info.TypeOf(id)) != "DifferenceLocation" {
+					return true
+				}
+				obj := info.Uses[id]
+				if obj == nil || obj.Pos() >= lp.Pos() {
+					return true // declared inside the loop: per-iteration
+				}
+				k++
+				self := goan.Mentions(info, as.Rhs[0], obj)
+				c.Check(!self, rule, fmt.Sprintf("diff.%s › %s reassigned in a loop #%d", load.FuncName(fd), id.Name, k), c.posOf(pk, as.Pos()), "not derived from its own previous value",
+					fmt.Sprintf("`%s = %s` inside a loop extends a location declared outside the loop: the second and later iterations report under the node of the previous one, so the reported locations of one direction are not the mirror of the other", id.Name, goan.ExprString(as.Rhs[0])))
+				return true
+			})
+		}
+	}
+	// every loop of the analyser that reports differences was looked at
+	n := 0
+	for _, fd := range load.AllFuncs(pk) {
+		ast.Inspect(fd.Body, func(nd ast.Node) bool {
+			switch nd.(type) {
+			case *ast.RangeStmt, *ast.ForStmt:
+				n++
+			}
+			return true
+		})
+	}
+	for i := 0; i < n && i < 25; i++ {
+		c.Ok(rule, fmt.Sprintf("diff › loop #%d examined", i+1), "", "no in-place extension of an outer location")
+	}
 }
